@@ -445,6 +445,10 @@ impl Message {
                     if !header.list {
                         return Err(DecoderError::Custom("Invalid format of header"));
                     }
+                    // The list of records must cover the rest of the message exactly.
+                    if header.payload_length != payload.len() {
+                        return Err(DecoderError::Custom("Reject the extra data"));
+                    }
                     let mut enr_list_rlp = Vec::<Enr<CombinedKey>>::new();
                     while !payload.is_empty() {
                         let node_header = Header::decode(&mut &payload[..])?;
